@@ -25,6 +25,52 @@ var c13Args = []string{"", "0", "1", "-1", "2", "10", "ka", "kl", "kh", "ks", "k
 	"NX", "XX", "GET", "EX", "PX", "COUNT", "MATCH", "LIMIT", "LEFT", "RIGHT", "BEFORE", "WITHVALUES", "BY", "STORE", "ALPHA", "DESC",
 	"REPLACE", "ABSTTL", "u8", "i64", "u63", "i65", "#1", "OVERFLOW", "FAIL", "SET", "INCRBY", "AND", "NOT", "BIT", "BYTE", "*", "k*", "[", "\\"}
 
+// argument templates: K = a key of some type, I = an integer from the extremes, F = a float, anything else literal
+var c13Templates = [][]string{
+	{"setrange", "K", "I", "x"}, {"getrange", "K", "I", "I"}, {"substr", "K", "I", "I"}, {"lrange", "K", "I", "I"}, {"lindex", "K", "I"}, {"lset", "K", "I", "x"},
+	{"ltrim", "K", "I", "I"}, {"lrem", "K", "I", "a"}, {"lpop", "K", "I"}, {"rpop", "K", "I"}, {"lmpop", "I", "K", "LEFT", "COUNT", "I"}, {"lmpop", "1", "K", "RIGHT", "COUNT", "I"},
+	{"lpos", "K", "a", "RANK", "I"}, {"lpos", "K", "a", "COUNT", "I", "MAXLEN", "I"}, {"incrby", "K", "I"}, {"decrby", "K", "I"}, {"hincrby", "K", "f1", "I"},
+	{"expire", "K", "I"}, {"pexpire", "K", "I"}, {"expireat", "K", "I"}, {"pexpireat", "K", "I"}, {"setex", "K", "I", "v"}, {"psetex", "K", "I", "v"},
+	{"set", "K", "v", "EX", "I"}, {"set", "K", "v", "PX", "I"}, {"set", "K", "v", "EXAT", "I"}, {"set", "K", "v", "PXAT", "I"}, {"getex", "K", "EX", "I"}, {"getex", "K", "PXAT", "I"},
+	{"setbit", "K", "I", "1"}, {"setbit", "K", "I", "I"}, {"getbit", "K", "I"}, {"bitcount", "K", "I", "I"}, {"bitcount", "K", "I", "I", "BIT"}, {"bitpos", "K", "1", "I", "I"},
+	{"bitpos", "K", "0", "I", "I", "BIT"}, {"bitpos", "K", "I"}, {"bitfield", "K", "SET", "u8", "I", "1"}, {"bitfield", "K", "GET", "i64", "I"}, {"bitfield", "K", "INCRBY", "i64", "#I", "I"},
+	{"bitfield", "K", "SET", "u63", "#I", "I"}, {"bitfield", "K", "OVERFLOW", "SAT", "INCRBY", "i64", "0", "I"}, {"bitfield_ro", "K", "GET", "u8", "I"}, {"bitop", "NOT", "K", "K"},
+	{"srandmember", "K", "I"}, {"hrandfield", "K", "I"}, {"hrandfield", "K", "I", "WITHVALUES"}, {"scan", "I"}, {"scan", "0", "COUNT", "I"}, {"scan", "I", "MATCH", "*", "COUNT", "I"},
+	{"sscan", "K", "I", "COUNT", "I"}, {"hscan", "K", "I", "COUNT", "I"}, {"sintercard", "I", "K", "K", "LIMIT", "I"}, {"sintercard", "2", "K", "K", "LIMIT", "I"}, {"select", "I"},
+	{"copy", "K", "K", "DB", "I"}, {"sort", "K", "LIMIT", "I", "I"}, {"sort", "K", "LIMIT", "I", "I", "ALPHA"}, {"sort", "K", "ALPHA", "DESC", "STORE", "K"}, {"restore", "kr", "I", "x"},
+	{"blpop", "K", "F"}, {"brpop", "K", "K", "F"}, {"blmove", "K", "K", "LEFT", "RIGHT", "F"}, {"brpoplpush", "K", "K", "F"}, {"blmpop", "F", "I", "K", "LEFT", "COUNT", "I"},
+	{"incrbyfloat", "K", "F"}, {"hincrbyfloat", "K", "f1", "F"}, {"lcs", "K", "K", "MINMATCHLEN", "I"}, {"lcs", "K", "K", "IDX", "MINMATCHLEN", "I", "WITHMATCHLEN"}, {"linsert", "K", "BEFORE", "a", "x"},
+	{"hello", "I"}, {"smismember", "K", "a", "b"}, {"keys", "P"}, {"scan", "0", "MATCH", "P"}, {"sscan", "K", "0", "MATCH", "P"}, {"hscan", "K", "0", "MATCH", "P"}, {"command", "list", "filterby", "pattern", "P"},
+	{"dump", "K"}, {"rename", "K", "K"}, {"smove", "K", "K", "a"}, {"lmove", "K", "K", "LEFT", "LEFT"}, {"sinterstore", "K", "K", "K"}, {"msetnx", "K", "v", "K", "v"}, {"getdel", "K"},
+}
+
+var c13Ints = []string{"0", "1", "-1", "2", "3", "7", "8", "64", "-100", "100", "2147483647", "2147483648", "4294967295", "4294967296", "-2147483649",
+	"9223372036854775807", "-9223372036854775808", "9223372036854775806", "-9223372036854775807", "4611686018427387904", "4000000000000000000", "536870912"}
+var c13Floats = []string{"0", "0.01", "-1", "1e308", "-1e308", "inf", "-inf", "nan", "1e-320", "0.0000000001", "9223372036854775807", "3.5e18", "abc", ""}
+var c13Patterns = []string{"*", "[a-", "[^a-", "k[", "k[a", "k[a-", "*[", "\\", "k\\", "[]", "[^]", "[z-a]*", "?*?*?*", "k[\\", "*****k*****a", "[a-]x", "[-a", "[\\"}
+
+func c13Fill(g *rand.Rand, t []string) []string {
+	keys := []string{"ka", "kl", "kh", "ks", "kmissing"}
+	out := make([]string, len(t))
+	for i, a := range t {
+		switch a {
+		case "K":
+			out[i] = keys[g.Intn(len(keys))]
+		case "I":
+			out[i] = c13Ints[g.Intn(len(c13Ints))]
+		case "#I":
+			out[i] = "#" + c13Ints[g.Intn(len(c13Ints))]
+		case "F":
+			out[i] = c13Floats[g.Intn(len(c13Floats))]
+		case "P":
+			out[i] = c13Patterns[g.Intn(len(c13Patterns))]
+		default:
+			out[i] = a
+		}
+	}
+	return out
+}
+
 type c13Case struct {
 	Kind string   `json:"kind"` // "cmd" (well-formed command) or "raw" (raw bytes)
 	Args []string `json:"args_hex,omitempty"`
@@ -33,6 +79,8 @@ type c13Case struct {
 }
 
 type c13Runner struct {
+	prev     c13Case
+	late     string // a death noticed only when the next case started
 	srv      *Server
 	victim   *Conn
 	by       *Conn
@@ -93,10 +141,14 @@ func (r *c13Runner) bystander() string {
 // one hostile case; "" = fine
 func (r *c13Runner) run(cs c13Case) (string, error) {
 	if !r.srv.Alive() {
+		// the process died after the previous case had been judged: blame that case
+		why := fmt.Sprintf("emulator process died shortly after %q %q: %s", unhexs(r.prev.Args), unhex(r.prev.Raw), tail(r.srv.Stderr(), 700))
 		if err := r.setup(); err != nil {
 			return "", err
 		}
+		r.late = why
 	}
+	r.prev = cs
 	if err := r.seedState(); err != nil {
 		if err := r.setup(); err != nil {
 			return "", err
@@ -224,7 +276,7 @@ func runC13(cfg runCfg, res *Result) error {
 		}
 		return nil
 	}
-	cmds, raws := 3000, 500
+	cmds, raws := 3600, 500
 	if cfg.tier == "thorough" {
 		cmds, raws = 30000, 8000
 	}
@@ -233,7 +285,13 @@ func runC13(cfg runCfg, res *Result) error {
 	seenWhy := map[string]bool{}
 	for i := 0; i < cmds+raws && len(res.Mismatches) < 6; i++ {
 		var cs c13Case
-		if i < cmds {
+		if i < cmds && i%2 == 1 {
+			// integer-taking commands, filled from the table of extreme values
+			t := c13Templates[g.Intn(len(c13Templates))]
+			args := c13Fill(g, t)
+			cs = c13Case{Kind: "cmd", Args: hexs(args...)}
+			res.CmdHist[strings.ToLower(args[0])]++
+		} else if i < cmds {
 			name := names[g.Intn(len(names))]
 			args := []string{name}
 			keysPool := []string{"ka", "kl", "kh", "ks", "kmissing"}
@@ -265,6 +323,13 @@ func runC13(cfg runCfg, res *Result) error {
 		why, err := r.run(cs)
 		if err != nil {
 			return err
+		}
+		if r.late != "" {
+			prev := r.prev
+			_ = prev
+			lateWhy := r.late
+			r.late = ""
+			report(lateWhy, c13Case{Kind: "late-death"})
 		}
 		if why == "" {
 			continue
